@@ -191,6 +191,14 @@ def check_tu(ctx, tu):
 
         # ---- writes to predicate state -------------------------------------------------------
         any_pred = next(iter(pred_formula.values()), None)
+        if any_pred is None:
+            # no wait()/waitFor() instantiated for this queue in this unit: the predicate is doCanProcess()
+            for g in tu.fns_named(q + '::doCanProcess'):
+                try:
+                    any_pred = canon_formula(F.formula(g))
+                    break
+                except F.Unsupported:
+                    pass
         for f in members:
             ws = [w for w in writes(f) if any(x in PRED_FIELDS for x in fields_in(w['path']))]
             if not ws:
